@@ -1299,7 +1299,7 @@ bool SoPlexBase<R>::getRowViolation(R& maxviol, R& sumviol)
 template <class R>
 bool SoPlexBase<R>::getDualViolation(R& maxviol, R& sumviol)
 {
-   if(!hasBasis())
+   if(!hasBasis() || !hasSol())
       return false;
 
    _syncRealSolution();
@@ -1358,7 +1358,7 @@ bool SoPlexBase<R>::getDualViolation(R& maxviol, R& sumviol)
 template <class R>
 bool SoPlexBase<R>::getRedCostViolation(R& maxviol, R& sumviol)
 {
-   if(!hasBasis())
+   if(!hasBasis() || !hasSol())
       return false;
 
    _syncRealSolution();
